@@ -41,7 +41,14 @@ def random_reader_case(rng, max_blocks=4, small=True):
     else:
         max_read_samples = rng.choice((rng.randint(0, nsamples + 2 * block), block, 2 * block, nsamples, nsamples + 1,
                                        rng.randint(0, max(1, nsamples)) + rng.choice((0.25, 0.4, 0.5, 0.6, 0.75))))
-    return dict(width=width, channels=channels, rate=rate, block=block, hop=hop, nsamples=nsamples,
+    # durations need not be whole samples: block_dur=(block+f)/rate floors to block; hop_dur may floor to the same count as block_dur
+    bfrac = rng.choice((0, 0, 0, 0.25, 0.5, 0.75))
+    hfrac = rng.choice((0, 0, 0, 0.25, 0.5)) if hop is not None else 0
+    if hop is not None and (hop + hfrac) / rate > (block + bfrac) / rate:
+        hfrac = 0
+        if hop == block:
+            bfrac = max(bfrac, 0)
+    return dict(bfrac=bfrac, hfrac=hfrac, width=width, channels=channels, rate=rate, block=block, hop=hop, nsamples=nsamples,
                 max_read_samples=max_read_samples, kind=rng.choice(SOURCE_KINDS), extra_reads=rng.randint(1, 5),
                 record=rng.random() < 0.3, seed=rng.getrandbits(32))
 
@@ -54,8 +61,10 @@ def audio_of(case):
 
 def durations_of(case):
     rate = case["rate"]
-    block_dur = case["block"] / rate
-    hop_dur = None if case["hop"] is None else case["hop"] / rate
+    block_dur = (case["block"] + case.get("bfrac", 0)) / rate
+    hop_dur = None if case["hop"] is None else (case["hop"] + case.get("hfrac", 0)) / rate
+    if hop_dur is not None and hop_dur > block_dur:
+        hop_dur = block_dur
     mr = case["max_read_samples"]
     max_read = None if mr is None else mr / rate
     return block_dur, hop_dur, max_read
